@@ -403,6 +403,15 @@ func binaryTable(r *vh.Run, bin string, i int) {
 			return
 		}
 	}
+	var roBefore string
+	if s.ReadOnly && storeType == "dir" {
+		// things a collection would like to tidy up: an empty upload directory, a valid but empty repository
+		_ = os.MkdirAll(filepath.Join(root, "r", "_uploads"), 0o755)
+		_ = os.MkdirAll(filepath.Join(root, "emptyrepo"), 0o755)
+		_ = os.WriteFile(filepath.Join(root, "emptyrepo", "oci-layout"), []byte(`{"imageLayoutVersion":"1.0.0"}`), 0o644)
+		_ = os.WriteFile(filepath.Join(root, "emptyrepo", "index.json"), []byte(`{"schemaVersion":2,"mediaType":"application/vnd.oci.image.index.v1+json","manifests":[],"annotations":{"org.olareg.referrer.convert":"true"}}`), 0o644)
+		roBefore = treeListing(root)
+	}
 	args := []string{"--dir", root, "--store-type", storeType, fmt.Sprintf("--store-ro=%v", s.ReadOnly), fmt.Sprintf("--api-push=%v", s.Push), fmt.Sprintf("--api-delete=%v", s.Delete),
 		fmt.Sprintf("--api-blob-delete=%v", s.BlobDelete), fmt.Sprintf("--api-referrer=%v", s.Referrers), "--gc-frequency", "-1s"}
 	for _, wv := range warnings {
@@ -414,7 +423,16 @@ func binaryTable(r *vh.Run, bin string, i int) {
 		r.Inconclusive("binary did not start: " + err.Error())
 		return
 	}
-	defer p.term(20 * time.Second)
+	terminated := false
+	defer func() {
+		if !terminated {
+			p.term(20 * time.Second)
+		}
+	}()
+	if roBefore != "" {
+		p.req("GET", "/v2/emptyrepo/tags/list", nil, nil)
+		p.req("GET", "/v2/r/tags/list", nil, nil)
+	}
 	if storeType == "mem" {
 		// a memory store over --dir: what the directory holds is visible; nothing was put there in this branch
 		w = vh.NewWorld(r, nil, u, vh.Mem, "r")
@@ -458,10 +476,35 @@ func binaryTable(r *vh.Run, bin string, i int) {
 			r.Violation("store-type:mem-written", "with --store-type mem an acknowledged blob push was written under --dir", wit)
 		}
 	}
+	if roBefore != "" {
+		terminated = true
+		if ok, dump := p.term(20 * time.Second); !ok {
+			wit["dump"] = dump
+			r.Violation("sigterm:no-exit", "the read-only process did not terminate within 20 s after SIGTERM", wit)
+			return
+		}
+		if after := treeListing(root); after != roBefore {
+			wit["before"], wit["after"] = roBefore, after
+			r.Violation("read-only:tree-changed", "a process started with --store-ro changed the directory (requests + SIGTERM)", wit)
+			return
+		}
+		r.Count("readonly_tree_comparisons", 1)
+	}
 	if i < 2 {
 		r.Sample(map[string]any{"part": "binary", "args": args, "switches": s.String()})
 	}
 	r.Count("binary_launches", 1)
+}
+
+func treeListing(root string) string {
+	var l []string
+	_ = filepath.Walk(root, func(p string, fi os.FileInfo, err error) error {
+		if err == nil {
+			l = append(l, fmt.Sprintf("%s %v %d", strings.TrimPrefix(p, root), fi.Mode(), fi.Size()))
+		}
+		return nil
+	})
+	return strings.Join(l, "\n")
 }
 
 func sigtermTrial(r *vh.Run, bin string, i int) {
@@ -567,9 +610,15 @@ func rateTrial(r *vh.Run, i int) {
 	L := []int{1, 2, 5, 8}[rng.Intn(4)]
 	c := vh.Conf(vh.Mem, "", vh.Neutral)
 	c.API.RateLimit = L
+	var warns []string
+	if i%2 == 0 {
+		warns = []string{"be warned", "twice"}[:1+rng.Intn(2)]
+		c.API.Warnings = warns
+	}
 	srv := vh.New(c)
 	defer srv.Close()
-	wit := map[string]any{"trial": i, "limit": L}
+	wit := map[string]any{"trial": i, "limit": L, "warnings": warns}
+	warnBad := ""
 	useXFF := rng.Intn(2) == 0
 	send := func(addr string) (int, http.Header) {
 		rq := vh.Req{Method: "GET", URL: "/v2/", RemoteAddr: addr + ":4444"}
@@ -578,6 +627,10 @@ func rateTrial(r *vh.Run, i int) {
 			rq.H = map[string]string{"X-Forwarded-For": addr + ", 10.1.1.1"}
 		}
 		rs := vh.Do(srv, rq)
+		// every setting combines with every other: the configured warnings are on every answer, served or refused
+		if got := rs.H.Values("Warning"); len(got) != len(warns) && warnBad == "" {
+			warnBad = fmt.Sprintf("answer with status %d carries %d Warning headers, %d are configured", rs.Status, len(got), len(warns))
+		}
 		return rs.Status, rs.H
 	}
 	A, B := fmt.Sprintf("192.0.2.%d", 1+rng.Intn(200)), "198.51.100.7"
@@ -621,6 +674,10 @@ func rateTrial(r *vh.Run, i int) {
 	r.Count("rate_trials", 1)
 	r.Count("rate_qualifying_requests", qualifying)
 	r.Distinct("cells", fmt.Sprintf("rate/%d/%d/%v", L, qualifying, useXFF))
+	if warnBad != "" {
+		r.Violation("warning:rate-limited-answer", "rate limit "+fmt.Sprint(L)+" with warnings configured: "+warnBad, wit)
+		return
+	}
 	if i < 1 {
 		r.Sample(map[string]any{"part": "rate-limit", "limit": L, "sent_within_window": qualifying, "served": served, "refused": refused, "x_forwarded_for": useXFF})
 	}
